@@ -447,7 +447,8 @@ Inductive op :=
 
 Inductive obs :=
 | OIns (ok : bool) | ODel (ok : bool) | OVac (n : Z) | OVacErr | OReopen (ok : bool)
-| OSearch (r : sres) | OPanic | OFuel.
+| OSearch (r : sres) | OPanic | OFuel
+| OAbort.   (* the process died (allocation-failure abort) in this call; never produced by the model *)
 
 (* the index together with the caller's table of live rows (what get_vector answers from) *)
 Record world := W { ix : st; tbl : list (Z * list Z) }.
@@ -507,7 +508,20 @@ Definition entry_dead (s : st) : bool :=
   end.
 Definition any_inactive (s : st) : bool := existsb (fun n => negb (n_active n)) (nodes s).
 
-(* 0: no node has been deleted so far; 1: some node is deleted (slot not Active) but the entry point is
-   readable; 2: the entry point itself is deleted *)
+(* Page bytes in use: 64-byte page header, and per allocated node a 4-byte slot entry plus a slot of
+   HnswNode::max_serialized_size(level) = 10 + 32*6 + level*(1 + 16*6) bytes.  The slot directory keeps
+   offsets in 13 bits although pages have 16384 bytes: once more than 8192 bytes of the first node page
+   are in use, slots alias each other / the slot directory (finding F-C25-3) and this model, which has
+   no bytes, no longer describes the implementation. *)
+Definition node_bytes (lvl : Z) : Z := 202 + 97 * lvl.
+Definition page_use (s : st) : Z :=
+  fold_right (fun nd acc => node_bytes (n_level nd) + 4 + acc) 64 (nodes s).
+Definition HALF_PAGE : Z := 8192.
+
+(* 0: no node has been deleted so far and the first page is at most half full;
+   1: some node is deleted (slot not Active) but the entry point is readable;
+   2: the entry point itself is deleted;
+   3: more than half of the first node page is in use (outside the model's domain) *)
 Definition class_of (s : st) : Z :=
-  if entry_dead s then 2 else if any_inactive s then 1 else 0.
+  if HALF_PAGE <? page_use s then 3
+  else if entry_dead s then 2 else if any_inactive s then 1 else 0.
